@@ -260,7 +260,22 @@ func (m *Model) Call(cmd string, args ...[]byte) string {
 	}
 	m.in.WriteByte('\n')
 	m.in.Flush()
-	l, err := m.out.ReadString('\n')
+	type rl struct {
+		l   string
+		err error
+	}
+	ch := make(chan rl, 1)
+	go func() { l, err := m.out.ReadString('\n'); ch <- rl{l, err} }()
+	var l string
+	var err error
+	select {
+	case r := <-ch:
+		l, err = r.l, r.err
+	case <-time.After(120 * time.Second):
+		m.cmd.Process.Kill()
+		fmt.Fprintf(os.Stderr, "modeld did not answer %q within 120s (model function diverges on this input?)\n", cmd)
+		os.Exit(2)
+	}
 	if err != nil {
 		fmt.Fprintln(os.Stderr, "modeld died:", err)
 		os.Exit(2)
